@@ -454,24 +454,31 @@ class C09(Property):
             "through Environments.<method>; parameters: seeds (small, >2^30, float, seeds whose k-th uniform is 0 or 1-2^-30), counts 0/None/"
             "around the length, strict, slice start/stop/step incl. None, where-ranges exact/one-sided/two-sided around the actual counts, "
             "sort keys (none, indices, names, missing sparse keys, duplicates of key values), riffle spacing 0-6, batch sizes 0-N+1, cache "
-            "read histories with abandoned reads; non-trivial = the input has >= 2 interactions and the filter is not Identity/Chunk/Params; "
+            "read histories with abandoned reads; 12 % collections of 2-3 different environments behind one Environments shortcut, read in a "
+            "PRNG-chosen order with re-reads and abandoned reads; 8 % additionally through BatchSafe on the plain and on the batched input; non-trivial = the input has >= 2 interactions and the filter is not Identity/Chunk/Params; "
             "distinct by canonical JSON of the case")
     trusted_base = [
-        "Reservoir's float quantities W, S=floor(log(r2,1-W)), slot=int(r3*n) are recomputed by the harness from the LCG uniforms with the "
-        "code's own formulas and handed to the model as data; the theorems hold for every such sequence",
-        "str(seed*3.21) / str(seed) for non-integer seeds is computed by CPython in the harness and passed to the model as bytes",
+        "Reservoir's W = W*r1**x, S = floor(log(r2,1-W)), slot = int(r3*n) are evaluated by the model itself on Lean `Float` (IEEE doubles, the C "
+        "library's log/pow, the ones CPython calls); on every case the harness recomputes them in Python from the model's generator state and "
+        "compares the two step lists, and the size/subset/distinctness theorems hold for every step list whatsoever",
+        "str(seed*3.21) / str(seed) for non-integer seeds is computed by CPython in the harness and passed to the model as bytes (Seed.bytes)",
         "Python's sorted() is stable and compares key tuples lexicographically (the model uses a stable insertion sort on the same order)",
         "itertools.islice semantics (modelled as take/drop/every-step-th)",
     ]
     assumptions = [
-        "seed None (time seeded) is excluded; Slice steps are >= 1; sort keys exist in every dense context and compare (no str/number mix)",
+        "seed None (time seeded) is excluded; Slice steps are >= 1; sort keys exist in every dense context and compare (no str/number mix); "
+        "missing / unsubscriptable sort keys are generated as correspondence-only cases (the model raises the same exception kind)",
+        "Sort() without keys on sparse contexts orders by the tuple of key NAMES (sort_sparse_no_keys_order); the property's 'chosen context keys' "
+        "is read as not covering that case: (B) demands a permutation there, (A) pins the behaviour",
         "all interactions of one sequence are of one kind (same key set) - Batch takes the key set from the first interaction "
-        "(batch_unbatch_id_partial + counterexamples)",
+        "(batch_unbatch_id_partial + counterexamples; batchsafe_eq_plain uses the same hypothesis)",
         "one reader at a time on a Cache object (interleaved concurrent generators belong to C04/C19)",
         "torch batches are excluded (optional package not installed)",
     ]
     partial_theorems = {
-        "reservoir_total_partial": "no exception provided no iteration's float computation raises: IEEE log/pow are not modelled (W underflow after ~2^53-fold skips is unreachable for realistic streams)",
+        "reservoir_total_partial": "no exception provided no iteration's float computation raises (statement about arbitrary step lists)",
+        "reservoir_total_under_laws": "no exception under the stated laws of the arithmetic (FloatLaws); real arithmetic satisfies them (float_laws_satisfiable), IEEE doubles "
+                                      "break oneMinus_unit once W < 2^-53 (reservoir_underflow_counterexample) - needs a skip of > 10^9 items first, unreachable for real streams",
         "batch_unbatch_id_partial": "needs one common key set per sequence; Batch reads the keys of the first interaction only (counterexamples batch_unbatch_id_counterexample/2)",
     }
 
@@ -664,7 +671,7 @@ class C09(Property):
             if kind == "bare":
                 op["keys"] = rng.choice([[], [0], ["a"]])
             else:
-                ctx = rng.wchoice([(45, "list"), (15, "tuple"), (30, "dict"), (7, "ragged"), (3, "num")])
+                ctx = rng.wchoice([(42, "list"), (14, "tuple"), (28, "dict"), (7, "ragged"), (3, "num"), (4, "str"), (2, "none")])
         elif opn == "where":
             pass
         elif opn == "riffle":
@@ -682,15 +689,22 @@ class C09(Property):
             r = rng.below(10)
             if ctx in ("list", "tuple"):
                 w = meta["width"]
-                op["keys"] = [] if r < 3 else [rng.below(w)] if r < 6 else [rng.below(w) for _ in range(rng.randint(1, 3))]
+                idx = lambda: rng.below(w) if rng.chance(0.8) else rng.randint(-w, -1)      # negative indices count from the end
+                op["keys"] = [] if r < 3 else [idx()] if r < 6 else [idx() for _ in range(rng.randint(1, 3))]
+                if rng.chance(0.06):
+                    op["keys"] = op["keys"][:1] + [rng.choice([w, w + 1, -w - 1])]          # an index no context has: IndexError
+                    malformed = bool(items)
             elif ctx == "dict":
                 pool = list(meta["spkeys"]) + [rng.choice(["zz", 9])]     # a key no context has: everything ties at the default 0
                 op["keys"] = [] if r < 1 else [rng.choice(pool)] if r < 5 else [rng.choice(pool) for _ in range(rng.randint(1, 3))]
             elif ctx == "ragged":
-                op["keys"] = []
+                op["keys"] = [] if r < 6 else [rng.randint(0, 2)]          # an index only some contexts have
+                malformed = bool(items) and bool(op["keys"])
+            elif ctx == "str":
+                op["keys"] = rng.choice([[], [0], [-1], [0, -1]])          # a string context is a sequence of characters
             else:
-                op["keys"] = []
-                malformed = bool(items)     # tuple(number) raises TypeError: not a legal use, correspondence only
+                op["keys"] = rng.choice([[], [0]])
+                malformed = bool(items)     # a number / None is neither iterable nor subscriptable: TypeError, correspondence only
             op["nested"] = rng.chance(0.2) and bool(op["keys"])
         if opn == "where":
             acts = [len(it["actions"]) for it in items if it.get("actions") is not None]
@@ -905,17 +919,39 @@ class C09(Property):
         if not malformed:
             self.promise(case, o1, bfail, tags)
 
-        # ---- BatchSafe(F) on batched input = F on the plain input (differential, correspondence level)
+        # ---- BatchSafe(F): on the plain input and on the input batched by Batch(k), against the model (batchsafe_eq_plain)
         if case.get("batchsafe") and "err" not in o1 and not fails and name not in ("cache", "batch"):
-            try:
-                from coba.environments import filters as EF
-                bs = EF.BatchSafe(mk_filter(op))
-                got = R.describe(list(EF.Unbatch().filter(bs.filter(EF.Batch(case["batchsafe"]).filter(give(R.items, "iter"))))))
-                tags.append("batchsafe")
-                if got["ids"] != o1["ids"] or got["bad"]:
-                    fails.append(F("A", "%s: BatchSafe(filter) on batches of %d gave %s %s, the filter alone %s" % (what, case["batchsafe"], got["ids"], got["bad"][:1], o1["ids"]), "A:batchsafe"))
-            except Exception as e:  # noqa: BLE001
-                fails.append(F("A", "%s: BatchSafe(filter) on batches of %d raised %s" % (what, case["batchsafe"], errname(e)), "A:batchsafe"))
+            from coba.environments import filters as EF
+            tags.append("batchsafe")
+            req = self.inner_req(op)
+            for size in (0, case["batchsafe"]):
+                try:
+                    bs = EF.BatchSafe(mk_filter(op))
+                    inp = give(R.items, "iter") if size == 0 else EF.Batch(size).filter(give(R.items, "iter"))
+                    raw = list(bs.filter(inp))
+                    shape = [(list(b["id"]) if hasattr(b["id"], "is_batch") else b["id"]) for b in raw]
+                    got = R.describe(list(EF.Unbatch().filter(iter(raw))))
+                    got["shape"] = shape
+                except Exception as e:  # noqa: BLE001
+                    got = {"err": errname(e), "msg": str(e)[:100]}
+                impl["batchsafe/%d" % size] = got
+                if "err" in got or got["ids"] != o1["ids"] or got["bad"]:
+                    fails.append(F("A", "%s: BatchSafe(filter) on %s gave %s %s, the filter alone %s" % (what, "the plain input" if size == 0 else "batches of %d" % size,
+                                                                                                       got.get("ids", got.get("err")), got.get("bad", [])[:1], o1["ids"]), "A:batchsafe"))
+                elif driver is not None and req is not None:
+                    m = driver.ask({"op": "batchsafe", "size": size, "inner": req, "items": model_items(case, with_rec=True)})
+                    if "err" in m:
+                        fails.append(F("A", "%s: BatchSafe model raised %s, implementation %s" % (what, m["err"], got["ids"]), "A:batchsafe-model"))
+                    else:
+                        mshape = []
+                        for b in m["batches"]:
+                            if "plain" in b:
+                                mshape.append(b["plain"][0][1] // 64 if b["plain"] else None)
+                            else:
+                                col = dict((k, ts) for k, ts in b["batch"]).get("id", [])
+                                mshape.append([t // 64 for t in col])
+                        if mshape != got["shape"]:
+                            fails.append(F("A", "%s: BatchSafe(filter) on %s delivered batches %s, model %s" % (what, "the plain input" if size == 0 else "batches of %d" % size, got["shape"], mshape), "A:batchsafe-model"))
 
         # ---- (A) correspondence with the Lean model, (C) model = spec
         model = None
@@ -925,6 +961,11 @@ class C09(Property):
                 mo = {"err": model["err"]} if "err" in model else {"ids": model["out"]}
                 if not same(mo, o1):
                     fails.append(F("A", "%s: implementation %s, model %s" % (what, o1.get("ids", o1.get("err")), mo.get("ids", mo.get("err"))), "A:" + name))
+                if model.get("steps_differ"):
+                    fails.append(F("A", "%s: Reservoir's W/S/slot as CPython computes them %s differ from the model's (Lean Float) %s"
+                                   % (what, model["steps_py"][:6], model["steps"][:6]), "A:reservoir-steps"))
+                if "out_given" in model and model["out_given"] != model.get("out", model.get("err")):
+                    fails.append(F("C", "%s: model with its own steps %s, with the recomputed steps %s" % (what, model.get("out", model.get("err")), model["out_given"]), "C:reservoir-steps"))
                 if "spec" in model and model.get("out") != model["spec"]:
                     fails.append(F("C", "%s: model %s but spec %s" % (what, model.get("out"), model["spec"]), "C:" + name))
                 if name == "batch" and "batches" in model:
@@ -1011,21 +1052,24 @@ class C09(Property):
                 seen_full.add(k)
             elif k not in seen_full and isinstance(rec[2], list) and "ids" in full.get(k, {}) and rec[2] != full[k]["ids"][:c]:
                 bfail_for(k, "abandoned read")("delivered %s, the later complete read of the same environment starts with %s" % (rec[2], full[k]["ids"][:c]), name + "-partial-read-differs")
-        # (A) every environment against the model of its own filter
+        # (A) the whole read history against the model of the collection (collection_pointwise: one fresh filter object per
+        # environment), which the driver evaluates with `runColl`
         model = None
         if driver is not None and not fails:
-            model = []
-            for k in range(len(envs)):
-                sc = dict(subs[k])
-                if name == "cache":
-                    sc["op"] = {"name": "identity"}
-                m = self.ask_model(sc, driver)
-                if m is None:
-                    continue
-                mo = {"err": m["err"]} if "err" in m else {"ids": m["out"]}
-                model.append(mo)
-                if not same(mo, full[k]):
-                    fails.append(F("A", "%s: environment #%d delivers %s, the model of its filter %s" % (what, k, full[k].get("ids", full[k].get("err")), mo.get("ids", mo.get("err"))), "A:multi-" + name))
+            if name == "cache" or (name == "chunk" and (inner.get("default") or inner.get("cache"))):
+                ireq = {"op": "cache", "nslice": 25}
+            elif name == "batch":
+                ireq = {"op": "identity"}
+            else:
+                ireq = self.inner_req(inner)
+            if ireq is not None:
+                ans = driver.ask({"op": "collection", "inner": ireq, "order": order, "envs": [model_items(sc) for sc in subs], "items": []})
+                model = [[k, r.get("out", r.get("err"))] for k, r in ans["reads"]]
+                got = [[k, o] for k, c, o in impl["reads"]]
+                if model != got:
+                    j = next(i for i in range(len(got)) if i >= len(model) or model[i] != got[i])
+                    fails.append(F("A", "%s: read #%d (environment %d, consuming %s) delivers %s, the model of the collection %s"
+                                   % (what, j, order[j][0], order[j][1], got[j][1], model[j][1] if j < len(model) else None), "A:multi-" + name))
         nontrivial = sum(1 for e in envs if len(e) >= 1) >= 2
         return {"fails": fails, "nontrivial": nontrivial, "tags": tags, "impl": impl, "model": model}
 
@@ -1150,42 +1194,58 @@ class C09(Property):
         if out != exp:
             bfail("interactions with equal keys changed their relative order: %s, stable order %s" % (out, exp), "sort-not-stable")
 
+    def inner_req(self, op):
+        """the driver request (without items) for one single-filter op; None when the op has no stateless model"""
+        name = op["name"]
+        if name == "pshuffle":
+            return {"op": "pshuffle", "seed": model_seed(mk_seed(op["seed"]))}
+        if name == "eshuffle":
+            sd = mk_seed(op["seed"])
+            return {"op": "eshuffle", "seed": model_seed(sd), "lseed": model_seed(sd * 3.21)}
+        if name == "take":
+            return {"op": "take", "count": op["count"], "strict": bool(op.get("strict", False))}
+        if name == "slice":
+            return {"op": "slice", "start": op["start"], "stop": op["stop"], "step": 1 if op.get("step") is None else op["step"]}
+        if name == "reservoir":
+            return {"op": "reservoir", "count": op["count"], "strict": op["strict"], "seed": model_seed(mk_seed(op["seed"]))}
+        if name == "sort":
+            return {"op": "sort", "keys": [model_val(k) for k in op["keys"]]}
+        if name == "where":
+            return {"op": "where", "nint": norm_range(op.get("n_interactions")), "nact": norm_range(op.get("n_actions")), "nfet": norm_range(op.get("n_features"))}
+        if name == "riffle":
+            return {"op": "riffle", "spacing": op["spacing"], "seed": model_seed(mk_seed(op["seed"]))}
+        if name in ("identity", "chunk", "params"):
+            return {"op": "identity"}
+        return None
+
     def ask_model(self, case, driver):
         op = case["op"]
         name = op["name"]
         n = len(case["items"])
-        if name == "pshuffle":
-            return driver.ask({"op": "pshuffle", "seed": model_seed(mk_seed(op["seed"])), "items": model_items(case)})
-        if name == "eshuffle":
-            sd = mk_seed(op["seed"])
-            return driver.ask({"op": "eshuffle", "seed": model_seed(sd), "lseed": model_seed(sd * 3.21), "items": model_items(case)})
-        if name == "take":
-            return driver.ask({"op": "take", "count": op["count"], "strict": bool(op.get("strict", False)), "items": model_items(case)})
-        if name == "slice":
-            return driver.ask({"op": "slice", "start": op["start"], "stop": op["stop"], "step": 1 if op.get("step") is None else op["step"], "items": model_items(case)})
-        if name == "reservoir":
-            req = {"op": "reservoir", "count": op["count"], "strict": op["strict"], "seed": model_seed(mk_seed(op["seed"])), "steps": [], "items": model_items(case)}
-            c = op["count"]
-            if c is not None and c > 0 and n >= c:
-                st = driver.ask(req)["state"]          # the model's generator state after the initial shuffle
-                req["steps"] = reservoir_steps(st, c, n - c)[0]
-            return driver.ask(req)
-        if name == "sort":
-            return driver.ask({"op": "sort", "keys": [model_val(k) for k in op["keys"]], "items": model_items(case)})
-        if name == "where":
-            return driver.ask({"op": "where", "nint": norm_range(op.get("n_interactions")), "nact": norm_range(op.get("n_actions")),
-                               "nfet": norm_range(op.get("n_features")), "items": model_items(case)})
-        if name == "riffle":
-            return driver.ask({"op": "riffle", "spacing": op["spacing"], "seed": model_seed(mk_seed(op["seed"])), "items": model_items(case)})
-        if name in ("identity", "chunk", "params"):
-            return driver.ask({"op": "identity", "items": model_items(case)})
         if name == "batch":
             ans = driver.ask({"op": "batch", "size": op["size"] or 0, "items": model_items(case, with_rec=True)})
             if "err" in ans:
                 return ans
             ans["out"] = [r[0][1] // 64 for r in ans["unbatched"] if r]
             return ans
-        return None
+        req = self.inner_req(op)
+        if req is None:
+            return None
+        req = dict(req, items=model_items(case))
+        ans = driver.ask(req)
+        if name == "reservoir":
+            # the model computes W, S, slot itself (IEEE doubles, C log/pow); the harness recomputes them in Python from the
+            # model's generator state and (i) compares the two step lists, (ii) feeds its own list back into the step-list model
+            c = op["count"]
+            if c is not None and c > 0 and n >= c:
+                mine = reservoir_steps(ans["state"], c, n - c)[0]
+                ans["steps_py"] = mine
+                if ans["steps"][:len(mine)] != mine:
+                    ans["steps_differ"] = True
+                given = driver.ask(dict(req, steps=mine))
+                ans["out_given"] = given.get("out_given", given.get("err_given"))
+            ans["steps"] = ans["steps"][:40]
+        return ans
 
     def check_batches(self, case, R, model):
         """the batched interactions Batch produces, against the model's columns (tokens -> values)"""
